@@ -122,5 +122,6 @@ func main() {
 		}
 	}
 	proofs(c)
+	sectorProofs(c)
 	c.Finish()
 }
